@@ -1,1 +1,3 @@
 pub mod mapper_graph;
+pub mod wire;
+pub mod listing;
